@@ -110,6 +110,35 @@ class InternalError(Exception):
     """A harness problem (never reported as a VIOLATION; exit code 3)."""
 
 
+class ExecTimeout(BaseException):
+    """One execution of the implementation did not finish within its horizon (reported as a hang)."""
+
+
+class time_limit:  # pylint: disable=invalid-name
+    """Context manager: raise ExecTimeout in the main thread of this process after `seconds` of wall time."""
+
+    def __init__(self, seconds: float):
+        self.seconds = seconds
+
+    def _handler(self, signum, frame):
+        raise ExecTimeout(f'no completion within {self.seconds}s')
+
+    def __enter__(self):
+        import signal
+        self._old = signal.signal(signal.SIGALRM, self._handler)
+        signal.setitimer(signal.ITIMER_REAL, self.seconds)
+        return self
+
+    def __exit__(self, *exc):
+        import signal
+        signal.setitimer(signal.ITIMER_REAL, 0)
+        signal.signal(signal.SIGALRM, self._old)
+        return False
+
+
+EXEC_HORIZON = float(os.environ.get('DOSMC_EXEC_HORIZON', '30'))
+
+
 def _worker_init():
     import gc
     gc.disable()
